@@ -270,7 +270,11 @@ func (p *Program) structSort(named *types.Named, st *types.Struct) Sort {
 	}
 	for i := 0; i < st.NumFields(); i++ {
 		f := st.Field(i)
-		d.Fields = append(d.Fields, BVar{string(name) + "$" + f.Name(), p.sortOf(f.Type())})
+		fname := f.Name()
+		if fname == "_" {
+			fname = fmt.Sprintf("_blank%d", i)
+		}
+		d.Fields = append(d.Fields, BVar{string(name) + "$" + fname, p.sortOf(f.Type())})
 	}
 	p.U.AddDatatype(d)
 	return name
